@@ -12,8 +12,32 @@ def norm_arith(t):
     if not isinstance(t, tuple):
         return t
     if t and t[0] == "field" and t[2] == "0" and t[1][0] == "bin" and t[1][1].endswith("WithOverflow"):
-        return ("bin", t[1][1][:-len("WithOverflow")], norm_arith(t[1][2]), norm_arith(t[1][3]))
-    return tuple(norm_arith(x) if isinstance(x, tuple) else x for x in t)
+        return _fold_identity(("bin", t[1][1][:-len("WithOverflow")], norm_arith(t[1][2]), norm_arith(t[1][3])))
+    return _fold_identity(tuple(norm_arith(x) if isinstance(x, tuple) else x for x in t))
+
+
+def _fold_identity(t):
+    """x*1, 1*x, x/1, x+0, 0+x, x-0 -> x (operations that cannot change the value or overflow)"""
+    if isinstance(t, tuple) and t and t[0] == "bin" and len(t) == 4:
+        op, a, b = t[1], t[2], t[3]
+        if op == "Mul" and b == ("const", 1):
+            return a
+        if op == "Mul" and a == ("const", 1):
+            return b
+        if op in ("Div",) and b == ("const", 1):
+            return a
+        if op in ("Add", "Sub") and b == ("const", 0):
+            return a
+        if op == "Add" and a == ("const", 0):
+            return b
+    return t
+
+
+def is_identity_op(T, r):
+    """a MIR binary operation with a constant operand that makes it the identity"""
+    op = r["op"].replace("WithOverflow", "")
+    a, b = T.operand(r["a"]), T.operand(r["b"])
+    return (op == "Mul" and ("const", 1) in (a, b)) or (op == "Div" and b == ("const", 1)) or (op in ("Add", "Sub") and b == ("const", 0)) or (op == "Add" and a == ("const", 0))
 
 
 def is_param(t):
@@ -63,7 +87,7 @@ def rule_census(ctx):
         for b in f.blocks:
             for s in b["s"]:
                 if s["k"] == "assign":
-                    if s["r"]["k"] == "bin" and s["r"]["op"] not in ("Eq", "Ne", "Lt", "Le", "Gt", "Ge", "BitAnd"):
+                    if s["r"]["k"] == "bin" and s["r"]["op"] not in ("Eq", "Ne", "Lt", "Le", "Gt", "Ge", "BitAnd") and not is_identity_op(ctx.T(f), s["r"]):
                         got.append(s["r"]["op"])
                     if s["r"]["k"] == "cast":
                         casts += 1
@@ -135,7 +159,14 @@ def rule_domain(ctx):
     atoms = [Atom("duplicate", "bool", a_dup, [True, False]), Atom("weight>0", "bool", a_wpos, [True, False]), Atom("checked_add ok", "bool", a_add, [True, False]),
              Atom("map empty", "bool", a_empty, [True, False]), Atom("no leaders", "bool", a_nolead, [True, False])]
     W = Walker(ctx, f, atoms)
-    ins = [c["bb"] for c in T.calls() if c["q"].endswith("BTreeMap::insert")]
+    # the validator map is the one whose contains_key guards the insertion (other maps, e.g. key -> index, are derived later)
+    LF = Q.LocalFlow(f)
+
+    def recv_local(c):
+        l = Q.LocalFlow._local_op(c["t"]["args"][0]) if c["t"]["args"] else None
+        return LF._root_borrow(l) if l is not None else None
+    dup_recv = set(recv_local(c) for c in T.calls() if c["q"].endswith("BTreeMap::contains_key"))
+    ins = [c["bb"] for c in T.calls() if c["q"].endswith("BTreeMap::insert") and (not dup_recv or recv_local(c) in dup_recv)]
     oks = [bi for bi, b in enumerate(f.blocks) for s in b["s"] if s["k"] == "assign" and s["p"]["l"] in Q.ret_locals(f) and s["r"]["k"] == "agg" and s["r"].get("variant") == "Ok"]
     head = loop_head(ctx, f, target=ins)
     ctx.floor(R, "insert sites", len(ins), 1)
